@@ -50,7 +50,7 @@ COMPONENTS = {
 ASSUMPTIONS = ['crash = process death (kernel page cache survives); power '
                'loss with unsynced data is not modelled: the code never '
                'calls fsync and the property speaks of the process dying']
-BUDGET = {'quick': 800, 'thorough': 6000}
+BUDGET = {'quick': 1600, 'thorough': 6000}
 QUICK_POINTS = 10
 PROBES = ['crash-runs', 'kill-before-mkstemp', 'kill-before-write',
           'kill-after-write', 'kill-before-rename', 'kill-after-rename',
